@@ -42,7 +42,7 @@ def dayOfYear (day month : Nat) : Int :=
   ((275 * (month : Rat) / 9).floor) - 2 * (((month : Rat) + 9) / 12).floor + day - 30
 
 /-- period lengths from the end dates: differences of consecutive day numbers starting from 0
-(u32 subtraction: a non-increasing list panics in the code; `none`) -/
+(`checked_sub` on u32: a list that goes backwards is rejected; `none`) -/
 def periodLengths (ends : List Int) : Option (List Nat) :=
   let rec go : Int → List Int → Option (List Nat)
     | _, [] => some []
